@@ -105,6 +105,34 @@ func verifServe(method, target string, body []byte, header http.Header, fn func(
 	return ran
 }
 
+// ---- application-supplied framework parts (round 7)
+
+// verifRawJSON is an application JSONSerializer as people write them around other JSON libraries:
+// it returns the decoder's errors as they are (no *echo.HTTPError).  `strict` rejects unknown fields.
+type verifRawJSON struct{ strict bool }
+
+func (verifRawJSON) Serialize(c echo.Context, i interface{}, indent string) error {
+	return echo.DefaultJSONSerializer{}.Serialize(c, i, indent)
+}
+
+func (s verifRawJSON) Deserialize(c echo.Context, i interface{}) error {
+	d := json.NewDecoder(c.Request().Body)
+	if s.strict {
+		d.DisallowUnknownFields()
+	}
+	return d.Decode(i)
+}
+
+// verifDelegatingBinder is an application Binder that delegates to the default one
+type verifDelegatingBinder struct{ calls *int }
+
+func (b verifDelegatingBinder) Bind(i interface{}, c echo.Context) error {
+	if b.calls != nil {
+		*b.calls++
+	}
+	return (&echo.DefaultBinder{}).Bind(i, c)
+}
+
 // ---- JSON / XML bodies for the C08 catalogue struct
 
 var jsonNumberLike = func(s string) bool {
